@@ -13,6 +13,14 @@ Decides from the source:
       itself satisfies the rule); finalize ends in copy_metadata(D, .,
       do_coords=False); prep_schema / update_metadata route each optics
       argument to the attribute of the same name;
+  F6  copy_metadata(old, data): the result is a copy of `data` carrying
+      old's attrs (a copy of the dict) and name whenever old is a DataArray;
+      coordinates are taken over only when do_coords; a non-xarray `old` leaves
+      a plain copy of data;
+  F7  prep_schema refuses exactly the missing optics (wavelength, medium
+      index, polarisation unless the caller passes False) and otherwise returns
+      the updated detector; interpret_theory's table: 'auto' -> the default
+      theory, a theory class -> an instance, an instance -> itself;
   F5  nothing reachable from calc_* writes module-level or class-level state,
       no scattering theory stores on `self` during a calculation, and the one
       f2py routine with a legacy reuse switch (scsmfo_min.amncalc) is called
@@ -30,7 +38,8 @@ from hpstatic.poly import Canon
 from hpstatic.terms import (sym, intern, show, subterms, calls_in, TRUE, FALSE,
                             NONE, atoms_of, kw, num)
 from hpstatic.xrnorm import atom_rewrite
-from .common import THEORY
+from .common import THEORY, norm_cond
+from hpstatic.logic import select
 
 MUTATION_TARGETS = {'holopy/scattering/interface.py': ['calc_holo', 'calc_intensity', 'calc_field', 'calc_scat_matrix', 'finalize', 'prep_schema', 'scattered_field_to_hologram', 'interpret_theory'], 'holopy/core/metadata.py': ['to_vector', 'dict_to_array', 'update_metadata', 'copy_metadata']}
 
@@ -82,6 +91,8 @@ def run(check, prog):
     f1_f2(check, prog, canon)
     f3_vectors(check, prog, canon)
     f4_metadata(check, prog)
+    f6_copy_metadata(check, prog)
+    f7_prepared_schema(check, prog)
     f5_state(check, prog)
 
 
@@ -572,3 +583,173 @@ def init_only(cg, prog, owner, q):
             continue
         ok = False
     return ok
+
+
+# ----------------------------------------------------------------------
+def f6_copy_metadata(check, prog):
+    q = M + 'copy_metadata'
+    fd = prog.func(q)
+    loc = prog.loc(q, fd)
+    old, data, do = [sym(a.arg) for a in fd.args.args[:3]]
+    it = Interp(prog, max_depth=1)
+    res = it.analyze(q)
+    cpy = intern(('call', ('attr', data, 'copy'), (), ()))
+    isx = intern(('call', 'isinstance', (old, ('extref', 'xarray.DataArray')), ()))
+    hasc = intern(('call', 'hasattr', (cpy, ('const', 'coords')), ()))
+    oflat = intern(('call', 'hasattr', (old, ('const', 'flat')), ()))
+
+    def hyp(isx_v, do_v):
+        def h(t):
+            if t == isx:
+                return isx_v
+            if t == hasc:
+                return True
+            if t == do:
+                return do_v
+            if t == oflat:
+                return False
+            return None
+        return h
+    plain = select(res.ret, hyp(False, True))
+    check.require(plain == cpy, 'F6-copy-metadata', 'copy_metadata [old is not an xarray]',
+                  'a plain copy of data', loc,
+                  fail_detail='returns %s' % (show(plain)[:120] if plain else None))
+    st = {e['attr']: e for e in it.effects if e['kind'] == 'setattr'}
+    want = {'attrs': intern(('copy', 'shallow', ('attr', old, 'attrs'))),
+            'name': intern(('attr', old, 'name'))}
+    ok = set(st) == {'attrs', 'name'} and all(
+        st[k]['value'] == want[k] and norm_cond(st[k]['cond']) == [(isx, True)]
+        for k in want)
+    if ok:
+        for k in want:
+            b = st[k]['base']
+            leaves = set()
+
+            def walk(t):
+                if t[0] == 'ite':
+                    walk(t[2])
+                    walk(t[3])
+                elif t[0] == 'upd':
+                    walk(t[1])
+                else:
+                    leaves.add(t)
+            walk(b)
+            ok = ok and all(x == cpy or (x[0] == 'call' and x[1] == 'xarray.DataArray'
+                                         and x[2] and x[2][0] == cpy) for x in leaves)
+    check.require(ok, 'F6-copy-metadata', 'copy_metadata attrs and name',
+                  'whenever old is a DataArray the copy of data gets old.attrs and '
+                  'old.name', loc, fail_detail='stores: %s' % {
+                      k: (show(e['value'])[:40], [(show(t)[:40], p) for t, p in e['cond']])
+                      for k, e in st.items()})
+    nocoords = select(res.ret, hyp(True, False))
+    withcoords = select(res.ret, hyp(True, True))
+    ok = nocoords is not None and withcoords is not None and \
+        not calls_in(nocoords, 'rename') and bool(calls_in(withcoords, 'rename'))
+    if ok:
+        t = nocoords
+        got = {}
+        while t[0] == 'upd' and t[2] == 'attr':
+            got[t[3]] = t[4]
+            t = t[1]
+        t = select(t, hyp(True, False))
+        ok = t == cpy and got == want
+    check.require(ok, 'F6-copy-metadata', 'copy_metadata coordinates',
+                  'do_coords=False: exactly the copy of data with old\'s attrs and '
+                  'name; do_coords=True: matching coordinates are additionally renamed '
+                  'to old\'s', loc, fail_detail='without coords: %s' % (
+                      show(nocoords)[:160] if nocoords else None))
+    bad = [e for e, stt, rs in writes(it) if any(
+        r[0] == 'param' and r[1] in (fd.args.args[0].arg, fd.args.args[1].arg)
+        for r in rs) and ('maybe-fresh',) not in rs]
+    check.require(not bad, 'F6-copy-metadata', 'copy_metadata inputs',
+                  'neither old nor data is modified', loc,
+                  fail_detail='stores into an input: %s' % [
+                      (e.get('target_src'), e['lineno']) for e in bad])
+
+
+def f7_prepared_schema(check, prog):
+    q = I + 'prep_schema'
+    fd = prog.func(q)
+    loc = prog.loc(q, fd)
+    P = [sym(a.arg) for a in fd.args.args[:4]]
+    it = Interp(prog, max_depth=1, opaque=[M + 'update_metadata',
+                                           'holopy.core.utils.ensure_array'])
+    res = it.analyze(q)
+    U = intern(('call', M + 'update_metadata', tuple(P), ()))
+
+    def isnone(attr):
+        return intern(('cmp', 'is', ('attr', U, attr), NONE))
+    want = {
+        'wavelength': [(isnone('illum_wavelen'), True)],
+        'medium refractive index': [(isnone('medium_index'), True)],
+    }
+    got = {}
+    for o in res.raises:
+        v = o.value
+        nm = None
+        for x in subterms(v):
+            if x[0] == 'const' and isinstance(x[1], str):
+                nm = x[1]
+        got[nm] = norm_cond(o.cond)
+    ok = len(res.raises) == 3 and all(got.get(k) == w for k, w in want.items())
+    pc = got.get('polarization')
+    ok = ok and pc is not None and len(pc) == 1 and pc[0][1] is True and \
+        pc[0][0][0] == 'bool' and pc[0][0][1] == 'and' and \
+        set(pc[0][0][2]) == {intern(('cmp', 'is not', P[3], FALSE)),
+                             isnone('illum_polarization')}
+    check.require(ok, 'F7-refuses-only-missing-optics', 'prep_schema',
+                  'MissingParameter iff the updated detector has no wavelength / no '
+                  'medium index / no polarisation (unless polarisation=False is passed)',
+                  loc, fail_detail='raising paths: %s' % {
+                      k: [(show(t)[:70], p) for t, p in c] for k, c in got.items()})
+    # single illumination: the updated detector itself
+    atoms = []
+    t = res.ret
+    single = None
+    if t[0] == 'ite':
+        single = t[3] if t[2] != U else t[2]
+    elif t == U:
+        single = U
+    check.require(single == U, 'F7-single-channel-schema', 'prep_schema',
+                  'with one illumination the prepared schema is the updated detector',
+                  loc, fail_detail='returns %s' % show(res.ret)[:160])
+    # interpret_theory
+    q = I + 'interpret_theory'
+    fd = prog.func(q)
+    loc = prog.loc(q, fd)
+    sc, th = [sym(a.arg) for a in fd.args.args[:2]]
+    it = Interp(prog, max_depth=1, opaque=[I + 'determine_default_theory_for'])
+    res = it.analyze(q)
+    default = intern(('call', I + 'determine_default_theory_for', (sc,), ()))
+    isstr = intern(('call', 'isinstance', (th, ('extref', 'str')), ()))
+    auto = intern(('cmp', '==', th, ('const', 'auto')))
+    rows = []
+    import itertools
+    ok = True
+    detail = ''
+    n = 0
+    for s_v, a_v, c_v in itertools.product((True, False), repeat=3):
+        if a_v and not s_v:
+            continue
+
+        def h(t, s_v=s_v, a_v=a_v, c_v=c_v):
+            if t == isstr:
+                return s_v
+            if t == auto:
+                return a_v
+            if t[0] == 'call' and t[1] == 'isinstance' and \
+                    'SerializableMetaclass' in show(t[2][1]):
+                return c_v
+            return None
+        leaf = select(res.ret, h)
+        n += 1
+        base = default if (s_v and a_v) else th
+        wantl = intern(('call', base, (), ())) if c_v else base
+        if leaf != wantl:
+            ok = False
+            detail = 'string=%s auto=%s class=%s: %s' % (
+                s_v, a_v, c_v, show(leaf)[:80] if leaf else None)
+    check.require(ok, 'F7-theory-table', 'interpret_theory',
+                  "'auto' -> the default theory for the scatterer; a class -> its "
+                  'instance; anything else unchanged (%d rows)' % n, loc,
+                  fail_detail=detail)
